@@ -253,7 +253,7 @@ impl<T> VfScalar for *mut T {
     fn make(v: i128, step: bool, idx: &mut u64) -> Self { vf_h(v, step, idx) as u64 as usize as *mut T }
 }
 impl<T> VfScalar for *const T {
-    const SIGNED: bool = false; const KIND: &'static str = "ptr"; const ELEM_SIZE: usize = std::mem::size_of::<usize>();
+    const SIGNED: bool = false; const KIND: &'static str = "cptr"; const ELEM_SIZE: usize = std::mem::size_of::<usize>();
     fn show(&self, out: &mut String) { out.push_str(&format!("p{:x}", *self as usize)); }
     fn make(v: i128, step: bool, idx: &mut u64) -> Self { vf_h(v, step, idx) as u64 as usize as *const T }
 }
@@ -381,7 +381,7 @@ def emit_rs(model, recs, view, bindings_path, c_naming=False, namespaces=False, 
         if name.startswith("__Bindgen") or name.startswith("__Incomplete"):
             continue
         out.append("""impl VfScalar for %(n)s {
-    const SIGNED: bool = <%(t)s as VfScalar>::SIGNED; const KIND: &'static str = "enum"; const ELEM_SIZE: usize = std::mem::size_of::<%(t)s>();
+    const SIGNED: bool = <%(t)s as VfScalar>::SIGNED; const KIND: &'static str = <%(t)s as VfScalar>::KIND; const ELEM_SIZE: usize = std::mem::size_of::<%(t)s>();
     fn show(&self, out: &mut String) { self.0.show(out); }
     fn make(v: i128, step: bool, idx: &mut u64) -> Self { %(n)s(<%(t)s as VfScalar>::make(v, step, idx)) }
 }""" % {"n": name, "t": fty})
@@ -609,7 +609,7 @@ def compare(output, model, recs, info):
                 mism.append(Mismatch("type", "member %s.%s: enum width C %s, Rust %s" % (key[0], key[1], csz, sz), tn=key[0], path=key[1]))
             continue
         kk = "ptr" if ck == "fnptr" else ck
-        rk = "ptr" if kind == "fnptr" else kind
+        rk = "ptr" if kind in ("fnptr", "cptr") else kind
         if (kk, cs, csz) != (rk, sg, sz):
             mism.append(Mismatch("type", "member %s.%s: C kind/signed/width %s, Rust %s" % (key[0], key[1], (ck, cs, csz), (kind, sg, sz)), tn=key[0], path=key[1]))
     for (which, tn, k), lines in sections.items():
